@@ -244,6 +244,62 @@ def differential_case(case):
     return {"v": v[:3], "nt": [case], "stats": {"evals": 1}, "out": [(name, float(sc1))], "sample": {"estimator": name, "named": named, "precomputed": pre}}
 
 
+def int_data_case(case):
+    """The user's precomputed matrix is used AS GIVEN whatever container the data comes in: count data stored as integers (or a nested list of
+    ints, float32) together with a float matrix gives the same affinity, fitted model, path and score as the float64 copy of the data."""
+    name, form, mode, seed = case
+    n = 8
+    Xf = np.round(seams.tiny_data(n, 3, seed + 66) * 4) + 0.0        # (+0.0: no negative zeros, which integers cannot represent)
+    Xin = {"int64": Xf.astype(np.int64), "int32": Xf.astype(np.int32), "list_of_int": Xf.astype(int).tolist(), "float32": Xf.astype(np.float32)}[form]
+    is_metric = name in M.HAS_METRIC or name == "Douglas"
+    rs = np.random.RandomState(seed + 67)
+    B = rs.normal(size=(n, n))
+    Kmat = np.abs(B + B.T) * (1 - np.eye(n)) + 0.0 if is_metric else B @ B.T / n + 0.25 * np.eye(n)      # certainly not integer valued
+    common = {"random_state": seed, "max_iter": 3} if name != "Kauri" else {"random_state": seed, "max_clusters": 3}
+    if name in M.GENERIC_GEMINI:
+        spec = dict(common, gemini=["W" if is_metric else "MMD", "pre_metric" if is_metric else "pre_psd", False])
+    elif name in M.HAS_METRIC:
+        spec = dict(common, metric="pre_metric")
+    else:
+        spec = dict(common, kernel="pre_psd")
+    if name in M.SPARSE:
+        spec["alpha"] = 0.3
+    where = dict(estimator=name, affinity="precomputed", mode=mode, data=form)
+    v = []
+    with warnings.catch_warnings():
+        warnings.simplefilter("ignore")
+        ma, _, _ = C.build(name, spec, Xf, seed)
+        mb, _, _ = C.build(name, spec, Xf, seed)
+        if name != "Kauri":
+            g = ma.get_gemini()
+            try:
+                A = np.asarray(g.compute_affinity(Xin, Kmat), dtype=float)
+                if A.shape != Kmat.shape or not np.array_equal(A, Kmat):
+                    v.append(violation("precomputed_matrix_not_used_as_given", {"data": form, "given": Kmat[:2, :3], "used": A[:2, :3]}, **where))
+            except Exception as e:  # noqa
+                v.append(violation("precomputed_matrix_not_used_as_given", {"data": form, "error": repr(e)[:200]}, **where))
+        if mode == "path":
+            ra = ma.path(Xin, Kmat, alpha_multiplier=2.0, min_features=1, max_patience=2)
+            rb = mb.path(Xf, Kmat, alpha_multiplier=2.0, min_features=1, max_patience=2)
+            tol = 1e-5 if form == "float32" else 0.0
+            for i, (a, b) in enumerate(zip(ra[1:], rb[1:])):
+                a_, b_ = np.asarray(a, dtype=float), np.asarray(b, dtype=float)
+                if a_.shape != b_.shape or not np.allclose(a_, b_, rtol=max(tol, 1e-9), atol=max(tol, 1e-7), equal_nan=True):
+                    v.append(violation("path_history_differs_named_vs_precomputed", {"history": i, "data_as_" + form: a, "data_as_float64": b}, **where))
+        else:
+            ma.fit(Xin, Kmat)
+            mb.fit(Xf, Kmat)
+            if form != "float32":
+                sa, sb = _state(ma), _state(mb)
+                bad = next((k for k in sb if k not in sa or not np.array_equal(sa[k], sb[k])), None)
+                if bad is not None:
+                    v.append(violation("fitted_model_differs_named_vs_precomputed", {"attribute": bad, "data_as_" + form: sa.get(bad), "data_as_float64": sb[bad]}, attribute=bad, **where))
+        sc_a, sc_b = ma.score(Xin, Kmat), mb.score(Xf, Kmat)
+        if form != "float32" and not abs(sc_a - sc_b) <= 1e-9 * max(1.0, abs(sc_b)) + 1e-7:
+            v.append(violation("score_differs_named_vs_precomputed", {"data_as_" + form: sc_a, "data_as_float64": sc_b}, **where))
+    return {"v": v[:3], "nt": [case], "stats": {"evals": 1}, "sample": {"estimator": name, "data": form, "mode": mode}}
+
+
 def reconfigured_case(case):
     """History: an estimator that has been fitted and scored with one kernel / metric / mode is re-parameterised with set_params and used
     again: it must train and score exactly like a fresh estimator built with the new hyperparameters."""
@@ -333,7 +389,15 @@ def explorers(tier, seed):
                     c3.append((name, tag, "fit", bs, ovo, seed))
     for tag in ["linear", "rbf", "polynomial", "sigmoid", "laplacian", "cosine"]:
         c3.append(("Kauri", tag, "fit", None, False, seed))
+    c5 = []
+    for name in ["LinearMMD", "MLPMMD", "SparseLinearMMD", "SparseMLPMMD", "CategoricalMMD", "Kauri", "LinearModel", "SparseMLPModel", "Douglas"] + M.HAS_METRIC:
+        for form in ("int64", "int32", "list_of_int", "float32"):
+            for mode in (("fit", "path") if name in M.SPARSE else ("fit",)):
+                c5.append((name, form, mode, seed))
     return [
+        Explorer("precomputed_with_any_data_container", "props.c11", "int_data_case", c5, chunk=4, floor=20,
+                 rule="a float precomputed kernel / distance matrix handed over with count data stored as int64 / int32 / nested list of ints / float32: "
+                      "compute_affinity returns the matrix as given; fit, path and score equal those obtained with the float64 copy of the data"),
         Explorer("forwarding", "props.c11", "forward_case", c1, chunk=8, floor=100,
                  rule="every estimator exposing kernel/metric/ovo/gemini/base_kernel x every accepted value (names with and without parameter dictionaries, "
                       "callables, precomputed, both ovo flags, gemini None / 13 names / instances): compute_affinity == scikit-learn called directly (bitwise), "
